@@ -222,9 +222,10 @@ def _allowed_singular(spec, body, p_local):
     return False
 
 
-def _offset_class(off, t_rel, identity):
+def _offset_class(off, t_rel, identity, on_body=False):
     """by the actual distance t (relative to L) of the observer from its nearest special set, prolongations included:
-    exact: on the set in an identity pose (the library sees the same coordinates); tiny: 0 < t <= 1e-8 (also: on the set
+    exact_on_body / exact_prolongation: on the set in an identity pose (the library sees the same coordinates), on the
+    body's own surface or on the prolongation of one of its special sets; tiny: 0 < t <= 1e-8 (also: on the set
     through a generic pose, i.e. within rounding); small: 1e-8 < t; far: ladder value >= 1e3 L"""
     if off == "far":
         return "far"
@@ -232,7 +233,9 @@ def _offset_class(off, t_rel, identity):
     if any(0.0 < t <= 1e-8 for t in ts):
         return "tiny"  # a tiny non-zero distance from at least one special set (e.g. on a face, 1e-14 L from an edge line)
     if any(t == 0.0 for t in ts):
-        return "exact" if identity else "tiny"
+        if not identity:
+            return "tiny"
+        return "exact_on_body" if on_body else "exact_prolongation"
     return "small"
 
 
@@ -292,7 +295,8 @@ def run_case(case, ctx):
                     continue
                 tsp, tname = geom.special_dist(body, loc[i][None], with_name=True)
                 out.append(Violation({**sig0, "sub": "nonfinite", "field": X if X in "BH" else "JM", "base": o["base"],
-                                      "offset_class": _offset_class(o["offset"], [float(v[0]) / body.L for v in geom.special_dist(body, loc[i][None], all_sets=True).values()], identity),
+                                      "offset_class": _offset_class(o["offset"], [float(v[0]) / body.L for v in geom.special_dist(body, loc[i][None], all_sets=True).values()], identity,
+                                                                    float(body.dist(loc[i][None])[0]) == 0.0),
                                       "near": tname[0]},
                                      f"{cls} get{X} = {F.reshape(n, 3)[i].tolist()} at local {loc[i].tolist()} (base {o['base']} {o.get('detail', '')}, "
                                      f"offset {o['offset']}, nearest special set {tname[0]} at {float(tsp[0]) / body.L:.3g} L, batch {n})",
